@@ -1,4 +1,6 @@
-import Preflate.Props.C03
+import Preflate.Props.C03Public
+#print axioms Preflate.public_agrees_spec
+#print axioms Preflate.library_agrees_spec
 #print axioms Preflate.length_tables_are_rfc
 #print axioms Preflate.dist_tables_are_rfc
 #print axioms Preflate.fixed_code_is_rfc
